@@ -13,7 +13,7 @@ MANIFEST = {
           'discipline of sorted/timesorted/naive, and from every final state (and every state of the '
           'sequential BFS to depth 6/8) repeated draining must hand out everything.',
   'note': 'A pass is defined observationally (DESIGN.md I5). Snapshots for the choice-time clauses are taken '
-          'when the drainer has just acquired the cache lock.',
+          'when the drainer has just acquired the cache lock. One series has the empty name; cache queries for uncached series race the drains; sub-second timestamps just short of the lag.',
 }
 
 STRATEGIES = ('sorted', 'max', 'naive', 'timesorted', 'bucketmax', 'random')
